@@ -159,6 +159,7 @@ class VLoop(asyncio.SelectorEventLoop):
         self.tx_cap = 2000
         self.events: list = []
         self.live: dict = {}            # sid -> owner, sockets currently open
+        self.transports: dict = {}      # sid -> weak reference to the asyncio transport created on that socket
         self.peers: dict = {}           # (host, port) -> peer object with attach(sock, kind)
         self.owners: dict = {}          # (host, port) -> owner label
         self.lowat_socks: dict = {}     # fd -> weakref(MonSocket) with an emulated SO_RCVLOWAT > 1
@@ -239,7 +240,9 @@ class VLoop(asyncio.SelectorEventLoop):
         b.setblocking(False)
         cs = MonSocket(self, a, key, "udp", owner)
         self.peers[key].attach(b, "udp")
-        return await super().create_datagram_endpoint(protocol_factory, sock=cs)
+        res_ = await super().create_datagram_endpoint(protocol_factory, sock=cs)
+        self.transports[cs.sid] = weakref.ref(res_[0])
+        return res_
 
     async def create_connection(self, protocol_factory, host=None, port=None, **kw):
         await asyncio.sleep(0)
@@ -269,7 +272,20 @@ class VLoop(asyncio.SelectorEventLoop):
         b.setblocking(False)
         cs = MonSocket(self, a, key, "tcp", owner)
         self.peers[key].attach(b, "tcp")
-        return await super().create_connection(protocol_factory, sock=cs)
+        res_ = await super().create_connection(protocol_factory, sock=cs)
+        self.transports[cs.sid] = weakref.ref(res_[0])
+        return res_
+
+    def open_transports(self):
+        """sockets that are open AND whose asyncio transport has not been told to close (a transport that is closing only waits for the loop to
+        run its connection_lost callback: it is closed as far as its user is concerned)"""
+        out = []
+        for sid in self.live:
+            ref = self.transports.get(sid)
+            tr = ref() if ref is not None else None
+            if tr is not None and not tr.is_closing():
+                out.append(sid)
+        return out
 
     # -- teardown -----------------------------------------------------------------------------------
     def shutdown(self):
